@@ -1979,6 +1979,33 @@ func (c *Ctx) checkNormalizeHalfOpen() {
 		fromLow := derivesAny(st.Val, func(v ssa.Value) bool { f, idx := elemField(v); return f == lowF && idx != ia.Index })
 		r.Check(fromHi && fromLow, "C04.2g-single-id-widened", fmt.Sprintf("%s: kept Hi extended #%d from the next entry's Hi, or Low+1 for a single id", fk(fn), nSt), c.pos(st), "",
 			"when the kept range is extended the next entry's Hi is taken as it is: a single-id entry (Hi == 0) that starts at the kept range's end is consumed without extending it and its id is lost")
+		// (h) the kept range only grows: the store is behind `kept.Hi < new value` (or takes a max)
+		grows := false
+		if call, isCall := core.Strip(st.Val).(*ssa.Call); isCall {
+			if b, isB := call.Call.Value.(*ssa.Builtin); isB && b.Name() == "max" {
+				grows = true
+			}
+		}
+		if !grows {
+			g := core.Guard{Name: "kept.Hi < new", Match: func(a core.CondAtom) (bool, bool) {
+				if a.Op != token.LSS {
+					return false, false
+				}
+				fX, iX := elemField(a.X)
+				if fX == hiF && iX == ia.Index && core.Strip(a.Y) == core.Strip(st.Val) {
+					return true, true
+				}
+				// written the other way round: new > kept.Hi normalises to kept.Hi < new as well; new <= kept.Hi is the negation
+				return false, false
+			}}
+			saved := core.NoLift
+			core.NoLift = true
+			okG, cnt := core.GuardedBy(fn, st, g)
+			core.NoLift = saved
+			grows = okG && cnt[0] > 0
+		}
+		r.Check(grows, "C04.2h-kept-range-only-grows", fmt.Sprintf("%s: kept Hi extended #%d only when the next entry ends later", fk(fn), nSt), c.pos(st), "",
+			"the kept range's Hi is overwritten without the test that the next entry ends later: a range nested inside the kept one pulls its upper bound down and the ids above it drop out of the deletion")
 	})
 	r.Check(nSt >= 1, "C04.2g-single-id-widened", fk(fn)+": extension of the kept range found", "-", fmt.Sprintf("%d", nSt), "no store into the kept range's Hi: anchor lost")
 }
